@@ -1,7 +1,7 @@
 (** Non-vacuity: concrete configurations and payloads meet the hypotheses of the main theorems,
     and the model computes on them what the theorems say (evaluated by the kernel, vm_compute). *)
 From IsoTp Require Import Base.Prelude Model.Micro Spec.ConfigSpec Spec.Segment Spec.Stream
-  Proofs.TxP Proofs.CoopP Proofs.FcPosP Proofs.RxP Proofs.OnceP Proofs.PacingP Proofs.JustifiedP Proofs.LimP.
+  Proofs.TxP Proofs.CoopP Proofs.FcPosP Proofs.RxP Proofs.OnceP Proofs.PacingP Proofs.JustifiedP Proofs.LimP Proofs.LazyRunP.
 
 Definition ex_params (bs : Z) : params :=
   {| p_stmin := 0; p_blocksize := bs; p_override_stmin_ns := None; p_tbs_ns := 1000000000; p_tcr_ns := 1000000000;
@@ -49,4 +49,15 @@ Proof. vm_compute. split; reflexivity. Qed.
 Example ex_once :
   let ms := [MSend (list_gen [1; 2; 3]) 3 None; MSend (list_gen ex_payload) 30 None; MTx; MTx; MReset] in
   dones (snd (mrun ex_ca (init_layer ex_ca 0) ms)) = [0; 1].
+Proof. vm_compute. reflexivity. Qed.
+
+(** a run in which a generator is partly consumed (C17_lazy_run is not vacuous): First Frame, Flow
+    Control, one Consecutive Frame; 11 values pulled, 11 payload bytes on the wire, the queued
+    message untouched *)
+Example ex_lazy :
+  let fc := {| f_id := 0x456; f_ext := false; f_data := [0x55; 0x30; 0; 0]; f_dlc := 4; f_fd := false; f_brs := false |} in
+  let ms := [MSend (list_gen ex_payload) 30 None; MSend (list_gen [1; 2; 3]) 3 None; MTx; MRx fc; MTick 1000000; MTx] in
+  let '(s, evs) := mrun ex_ca (init_layer ex_ca 0) ms in
+  (tx_state s, LazyRunP.pulled s, LazyRunP.on_wire s (LazyRunP.wire ex_ca 0 evs), LazyRunP.held ex_ca s, map r_consumed (tx_queue s))
+  = (TxTransmitCF, 11, 11, 0, [0]).
 Proof. vm_compute. reflexivity. Qed.
